@@ -229,6 +229,8 @@ pub fn run(tier: Tier) -> i32 {
         "a", "^a", "a$", "^a$", "ab", "a.b", "a.*b", "^.*b$", "a|b", "^(a|b)$", "a+", "a*b", "ab?",
         "(ab)+", "^$", "", ".", "..", "^a.*", ".*a", "b.*$", "(a|b)(a|b)", "a\\.b", "^b*$", "A",
         "[ab]", "^[^a]", "a{2}", "\\w", "b$|^a", "\\W", "\\D", "^\\S+$", "a\\B", "(?-i:A)b", "\\pL", ".*a.*", ".*A", "b.*",
+        // literal regexes with a non-ASCII letter: under the i prefix a regex folds case by Unicode rules
+        "é", "É", "aé", "Éb",
     ];
     let needle_alpha: Vec<&str> = vec!["a", "b", "A", "É"];
     let hay_alpha: Vec<&str> = if th { vec!["a", "b", "A", "é", "É"] } else { vec!["a", "b", "A", "É"] };
